@@ -167,27 +167,27 @@ type harnessState struct {
 	execN    int64
 
 	// control state
-	mu         sync.Mutex
-	ch         chan struct{} // closed and replaced on every change of control state
-	paused     map[string]int
-	permits    map[string]int
-	open       map[string]bool
-	openAll    bool
-	gates      map[string]chan struct{}
-	started    bool
-	runStarted bool
+	mu           sync.Mutex
+	ch           chan struct{} // closed and replaced on every change of control state
+	paused       map[string]int
+	permits      map[string]int
+	open         map[string]bool
+	openAll      bool
+	gates        map[string]chan struct{}
+	started      bool
+	runStarted   bool
 	runStartedAt time.Time
-	runDone    bool // Run returned or panicked
-	sendersOn  bool
-	sendDone   []bool
-	api        []pAPI
-	errs       []string
+	runDone      bool // Run returned or panicked
+	sendersOn    bool
+	sendDone     []bool
+	api          []pAPI
+	errs         []string
 
 	forever chan struct{} // never closed
 
 	scratch    []tea.Cmd
 	dropped    map[string]int
-	passed  map[string]int
+	passed     map[string]int
 	cmdCache   map[*pCmdSpec]tea.Cmd
 	lastKey    atomic.Value // key of the message of the most recent Update
 	afterFired int32
@@ -376,15 +376,16 @@ func pKeyAliases(key string) []string {
 // ---------------------------------------------------------------- fake exec
 
 type pFakeExec struct {
-	h      *harnessState
-	idx    int
-	ok     bool
-	pause  bool
-	read   int
-	mu     sync.Mutex
-	stdin  io.Reader
-	stdout io.Writer
-	stderr io.Writer
+	h       *harnessState
+	idx     int
+	ok      bool
+	pause   bool
+	closeIn bool
+	read    int
+	mu      sync.Mutex
+	stdin   io.Reader
+	stdout  io.Writer
+	stderr  io.Writer
 }
 
 func (f *pFakeExec) SetStdin(r io.Reader)  { f.mu.Lock(); f.stdin = r; f.mu.Unlock() }
@@ -415,6 +416,12 @@ func (f *pFakeExec) Run() error {
 		case r := <-c:
 			got = pToInts(r.b)
 		case <-time.After(100 * time.Millisecond):
+		}
+	}
+	if f.closeIn {
+		// the external program closes the descriptor it inherited: taking the terminal back will fail
+		if c, ok := in.(io.Closer); ok && !pIsNilReader(in) {
+			_ = c.Close()
 		}
 	}
 	time.Sleep(20 * time.Millisecond)
@@ -504,7 +511,7 @@ func (h *harnessState) buildMsg(ms *pMsgSpec) tea.Msg {
 		return tea.Sequence(cs...)()
 	case "exec":
 		idx := int(atomic.AddInt64(&h.execN, 1) - 1)
-		fe := &pFakeExec{h: h, idx: idx, ok: ms.OK == nil || *ms.OK, read: ms.Read, pause: ms.Pause}
+		fe := &pFakeExec{h: h, idx: idx, ok: ms.OK == nil || *ms.OK, read: ms.Read, pause: ms.Pause, closeIn: ms.CloseIn}
 		var cb tea.ExecCallback
 		if ms.CB {
 			cb = func(err error) tea.Msg {
